@@ -238,6 +238,13 @@ def r3(F, R):
                 seen_err += 1
             ok_fb = ok_fb and (bool(errw) == (look[0] == "None"))
         ok_fb = ok_fb and seen_err >= 1
+        # ... and once recorded it stays: the cell the error is written to (shared by all placeholders of one string) is written nowhere else —
+        # a later placeholder that resolves must not reset it
+        cells = {e[1] for p in rows for e in p.effects if e[0] == "write" and D.mentions(e[2], lambda x: D.is_variant(x, "feature::ExpandExamplesError"))}
+        cleared = [p for p in rows for e in p.effects if e[0] == "write" and e[1] in cells and not D.mentions(e[2], lambda x: D.is_variant(x, "feature::ExpandExamplesError"))]
+        R.check(not cleared, "recorded-error-is-kept", s, "the error cell is only ever set",
+                "the cell an unknown placeholder is recorded in is overwritten (with `None`) when a later placeholder of the same string resolves: `<typo> of <total>` is "
+                "accepted with the unknown placeholder replaced by nothing")
     R.check(ok_fb, "error-only-if-column-missing", s, "lookup.unwrap_or_else(|| { err = Some(..); \"\" })", "the error is not raised exactly when the column lookup fails")
     # the substitution returns Err exactly when an error was recorded — on the substitution routine's path table
     rows = D.Deep(F, sk, inline=False, max_paths=400).run()
